@@ -613,6 +613,9 @@ func postprocessParsed(lookup objLookup) {
 		if len(l) > 1 {
 			for _, c := range l[1:] {
 				words := strings.Split(c.parsed, " ")
+				if len(words) < 4 {
+					errlog.Abort("Incomplete command: %s", c.orig)
+				}
 				// Strip (interface-name)
 				if words[2][0] == '(' {
 					copy(words[2:], words[3:])
